@@ -57,6 +57,7 @@ fn warm_program(seed: u64, k: u64) -> BTreeMap<String, String> {
         seed: k,
         multibyte: 0,
         crlf: vec![false; 8],
+        lone_cr: false,
         comments: false,
         shape: 0,
     };
@@ -374,6 +375,7 @@ pub fn run(seed: u64, run: u64) -> Report {
         seed: run,
         multibyte: (run % 3) as u8,
         crlf: vec![false; 8],
+        lone_cr: false,
         comments: true,
         shape: [0, 0, 0, 1, 2][(run % 5) as usize],
     };
@@ -540,6 +542,7 @@ fn minimise(ast: &gen::ProgramAst, layout: &Layout, scn: &Scenario, pc: Option<&
         seed: layout.seed,
         multibyte: 0,
         crlf: vec![false; 8],
+        lone_cr: false,
         comments: false,
         shape: 0,
     };
